@@ -1,1 +1,98 @@
-(* Props/C01.v — theorems arrive from the c01 branch *)
+(* Props/C01.v — property theorems only.  Model: Model/Graph.v (hand
+   transcription of set_value/_reset, _evaluate/_evaluate_range and
+   _gen_graph/_make_cells of excelcompiler.py; tied by the differential run).
+   Every theorem holds for EVERY well-formed workbook W (a DAG in topological
+   presentation) and EVERY formula semantics [sem] that never computes a blank
+   ([sem_nonblank]: side condition (d), see Refuted/C01_blank_result.v).
+
+   Vocabulary (Proofs/C01Base.v, C01Inv.v, C01.v):
+     wf W             deps of n < wb_n are smaller than n; inputs have no deps;
+                      range nodes are not inputs
+     spec W sem inp n the from-scratch value of node n under the inputs inp
+     vc W s n         the cache entry of n — for a formula cell not built yet,
+                      the stored result it will start from (a range: VNone)
+     stored_ok        stored results, where present, are the from-scratch values
+                      of the workbook's own inputs, and a cell with a stored
+                      result has stored results for the formula cells it reads
+     late_ok W s a    side condition (c): a descendant of a that is not built
+                      yet has no stored result (Refuted/C01_stored_late_build.v)
+     ok_op            Evaluate n / Build n: n < wb_n;  SetValue a v: a is a built
+                      input cell, v is an Excel scalar (blank, logical, number,
+                      text: scalar_exact), late_ok
+     run_spec inp h   the trace of from-scratch values: Evaluate n gives
+                      spec (inputs written so far) n *)
+From Coq Require Import List.
+From PV Require Import Lib.Py Model.Graph.
+From PV Require Import Proofs.C01Base Proofs.C01Inv Proofs.C01.
+Import ListNotations.
+
+(* the invariant holds initially and is preserved by every admissible operation *)
+Theorem C01_invariant : forall W sem, wf W -> sem_nonblank W sem -> stored_ok W sem ->
+  Inv W sem (init W) /\
+  forall s o, Inv W sem s -> ok_op W s o -> Inv W sem (fst (step W sem s o)).
+Proof. exact invariant. Qed.
+Print Assumptions C01_invariant.
+
+(* what the invariant says, I1 coherence: a built formula/range node that holds
+   a value holds the from-scratch value under the current input entries *)
+Theorem C01_invariant_coherence : forall W sem s, Inv W sem s ->
+  forall n, st_built s n = true -> wb_input W n = false -> st_cache s n <> VNone ->
+    st_cache s n = spec W sem (st_cache s) n.
+Proof. exact Inv_I1. Qed.
+Print Assumptions C01_invariant_coherence.
+
+(* I2 closure: the built dependants of an empty built formula/range node are
+   empty (what makes the early return of _reset sound) *)
+Theorem C01_invariant_closure : forall W sem s, Inv W sem s ->
+  forall p d, st_built s p = true -> wb_input W p = false -> st_cache s p = VNone ->
+    st_built s d = true -> In p (wb_deps W d) -> st_cache s d = VNone.
+Proof. exact Inv_I2. Qed.
+Print Assumptions C01_invariant_closure.
+
+(* PARTIAL (C01_coherent): after ANY admissible interleaving of set_value,
+   evaluate and build, every evaluate returns exactly the from-scratch value
+   under the inputs written so far — every written scalar, including blank and
+   0/FALSE, 1/TRUE, 1/1.0 overwrites.  Missing for the full statement: the two
+   side conditions (c) [late_ok, inside ok_op] and (d) [sem_nonblank], which
+   the implementation really needs (Refuted/C01_*.v). *)
+Theorem C01_coherent_partial : forall W sem, wf W -> sem_nonblank W sem -> stored_ok W sem ->
+  inputs_exact W (wb_inp0 W) ->
+  forall h, ok_history W sem (ok_op W) (init W) h ->
+    snd (run W sem (init W) h) = run_spec W sem (wb_inp0 W) h.
+Proof. exact coherent. Qed.
+Print Assumptions C01_coherent_partial.
+
+(* the same, pointwise and in terms of the machine's own input entries *)
+Theorem C01_coherent_pointwise_partial : forall W sem, wf W -> sem_nonblank W sem ->
+  stored_ok W sem -> inputs_exact W (wb_inp0 W) ->
+  forall h n, ok_history W sem (ok_op W) (init W) h -> n < wb_n W ->
+    let s := fst (run W sem (init W) h) in
+    Inv W sem s /\ snd (step W sem s (Evaluate n)) = spec W sem (st_cache s) n.
+Proof. exact coherent_pointwise. Qed.
+Print Assumptions C01_coherent_pointwise_partial.
+
+(* configuration 1 — no stored results (in-memory workbook, deserialized
+   model): no condition on the order in which cells are built *)
+Theorem C01_coherent_nodata_partial : forall W sem, wf W -> sem_nonblank W sem ->
+  (forall n, wb_stored W n = VNone) -> inputs_exact W (wb_inp0 W) ->
+  forall h, ok_history W sem (ok_op_free W) (init W) h ->
+    snd (run W sem (init W) h) = run_spec W sem (wb_inp0 W) h.
+Proof. exact coherent_nodata. Qed.
+Print Assumptions C01_coherent_nodata_partial.
+
+(* configuration 2 — .xlsx with stored results that are the from-scratch values
+   of the workbook's own inputs: every descendant of a written cell must be
+   built before the write *)
+Theorem C01_coherent_stored_partial : forall W sem, wf W -> sem_nonblank W sem ->
+  stored_consistent W sem -> inputs_exact W (wb_inp0 W) ->
+  forall h, ok_history W sem (ok_op_built W) (init W) h ->
+    snd (run W sem (init W) h) = run_spec W sem (wb_inp0 W) h.
+Proof. exact coherent_stored. Qed.
+Print Assumptions C01_coherent_stored_partial.
+
+(* set_value's guard skips a write only when nothing changes: scalars that
+   compare equal and have the same type are the same value *)
+Theorem C01_guard_sound : forall a b, scalar_exact a = true -> scalar_exact b = true ->
+  py_eq a b = true -> same_type a b = true -> a = b.
+Proof. exact scalar_same. Qed.
+Print Assumptions C01_guard_sound.
